@@ -146,7 +146,13 @@ def handle (op : String) (args : List String) (impl : String) : Option Verdict :
     let m := showBtc (btcBlock 1 block feeAddr rs txs)
     -- property: one result whatever the map iteration order, and every credited resource is one the transaction pays
     let multi := txs.any fun tx => (rs.filter fun r => (decode feeAddr tx r).isSome).length > 1
-    let ok := !(impl.contains '|') && impl != "err"
+    -- … and every message id is the function `source-destination-block` of the chain data
+    let idsOk := (items impl ";").all fun g => match g.splitOn "=" with
+      | [d, ms] => (match d.toNat? with
+        | some d => (ms.splitOn ",").all fun x => (x.splitOn ".").getLast? == some (btcMsgId 1 d block)
+        | none => false)
+      | _ => false
+    let ok := !(impl.contains '|') && impl != "err" && idsOk
     return ⟨m, ok, s!"btccredit:txs={min txs.length 3}:res={min rs.length 3}:multi={multi}:any={m != "-"}"⟩
   | "btcnonce", [_, _] => some ⟨"same", impl == "same", "btcnonce"⟩
   | "evmids", [src, s, e, ds] => some <| Id.run do
